@@ -129,7 +129,11 @@ func (jit *JITCompiler) CompileRoute(name string, route *ast.Route) ([]byte, err
 			return jit.recompileRoute(name, route, unit)
 		}
 
-		return unit.Bytecode, nil
+		// recompileRoute replaces the unit's fields under unitsMux
+		jit.unitsMux.RLock()
+		bytecode := unit.Bytecode
+		jit.unitsMux.RUnlock()
+		return bytecode, nil
 	}
 
 	// Cache miss - compile for the first time
@@ -192,8 +196,13 @@ func (jit *JITCompiler) RecordExecution(name string, executionTime time.Duration
 
 // shouldRecompile determines if a route should be recompiled to a higher tier
 func (jit *JITCompiler) shouldRecompile(unit *CompilationUnit) bool {
+	// Snapshot the fields recompileRoute replaces under unitsMux
+	jit.unitsMux.RLock()
+	unitTier, unitCompiledAt := unit.Tier, unit.CompiledAt
+	jit.unitsMux.RUnlock()
+
 	// Don't recompile if already at highest tier
-	if unit.Tier >= TierHighlyOptimized {
+	if unitTier >= TierHighlyOptimized {
 		return false
 	}
 
@@ -212,9 +221,9 @@ func (jit *JITCompiler) shouldRecompile(unit *CompilationUnit) bool {
 	// Recompile if:
 	// 1. Execution count is high enough
 	// 2. It's been long enough since last compilation
-	timeSinceCompile := time.Since(unit.CompiledAt)
+	timeSinceCompile := time.Since(unitCompiledAt)
 
-	switch unit.Tier {
+	switch unitTier {
 	case TierInterpreted, TierBaseline:
 		// Upgrade to optimized if executed frequently
 		return profile.ExecutionCount >= int64(hotPathThreshold/2) &&
@@ -233,7 +242,10 @@ func (jit *JITCompiler) recompileRoute(name string, route *ast.Route, currentUni
 	startTime := time.Now()
 
 	// Determine next tier
-	nextTier := jit.getNextTier(currentUnit.Tier)
+	jit.unitsMux.RLock()
+	currentTier := currentUnit.Tier
+	jit.unitsMux.RUnlock()
+	nextTier := jit.getNextTier(currentTier)
 
 	// Compile with new tier
 	bytecode, err := jit.compileWithTier(route, nextTier)
@@ -429,13 +441,18 @@ func (jit *JITCompiler) CompileRouteWithTypes(name string, route *ast.Route, typ
 func (jit *JITCompiler) CheckAdaptiveRecompilation(name string, route *ast.Route) (bool, error) {
 	jit.unitsMux.RLock()
 	unit, exists := jit.units[name]
+
+	var unitTier OptimizationTier
+	if exists {
+		unitTier = unit.Tier
+	}
 	jit.unitsMux.RUnlock()
 
 	if !exists {
 		return false, nil
 	}
 
-	trigger := jit.recompileTrigger.ShouldRecompile(name, unit.Tier)
+	trigger := jit.recompileTrigger.ShouldRecompile(name, unitTier)
 	if !trigger.ShouldRecompile {
 		return false, nil
 	}
@@ -458,12 +475,11 @@ func (jit *JITCompiler) CheckAdaptiveRecompilation(name string, route *ast.Route
 func (jit *JITCompiler) RecordDeoptimization(routeName string, reason string, typeMismatch map[string]string) {
 	jit.unitsMux.RLock()
 	unit, exists := jit.units[routeName]
-	jit.unitsMux.RUnlock()
-
 	var fromTier OptimizationTier
 	if exists {
 		fromTier = unit.Tier
 	}
+	jit.unitsMux.RUnlock()
 
 	record := DeoptimizationRecord{
 		RouteName:    routeName,
